@@ -1029,6 +1029,9 @@ class AnsiString:
             value = AnsiString(value)
 
         if isinstance(value, AnsiString):
+            if value is self:
+                # Appending to itself - work from a snapshot since my settings are about to change
+                value = value.copy()
             incoming_str = value._s
             incoming_fmts = value._fmts
         else:
@@ -1041,24 +1044,27 @@ class AnsiString:
         for key, settings in sorted(incoming_fmts.items()):
             key += shift
             if key in self._fmts:
+                # The incoming value must not be modified - work on copies of its lists
+                incoming_add = list(settings.add)
+                incoming_rem = list(settings.rem)
                 if (
                     key == shift
-                    and settings.add
-                    and self._fmts[key].rem[:len(settings.add)] == settings.add
+                    and incoming_add
+                    and self._fmts[key].rem[:len(incoming_add)] == incoming_add
                 ):
                     # Special case - the string being added contains same formatting as end of my string.
                     # Because the settings work based on references instead of values, the settings not only
                     # need to be removed here but changed where they are removed in the added string.
-                    find_settings = settings.add
-                    replace_settings = self._fmts[key].rem[:len(settings.add)]
-                    self._fmts[key].rem = self._fmts[key].rem[len(settings.add):]
-                    settings.add = []
-                    if not self._fmts[key] and not settings:
+                    find_settings = incoming_add
+                    replace_settings = self._fmts[key].rem[:len(incoming_add)]
+                    self._fmts[key].rem = self._fmts[key].rem[len(incoming_add):]
+                    incoming_add = []
+                    if not self._fmts[key] and not incoming_rem:
                         del self._fmts[key]
                         continue
 
-                self._fmts[key].add.extend(settings.add)
-                self._fmts[key].rem.extend(settings.rem)
+                self._fmts[key].add.extend(incoming_add)
+                self._fmts[key].rem.extend(incoming_rem)
 
             else:
                 self._fmts[key] = _AnsiSettingPoint(list(settings.add), list(settings.rem))
